@@ -3,6 +3,7 @@
 # part keys: name, pkg (directory under the repository), test (Go test function), race, gomaxprocs, gogc_off,
 #            shards {tier: n}, tiers [..], tags [...], env {...}, wrap [...], serial, min_evals, timeout_s {tier: s}
 
+NETNS = ["$VERIF/tools/netns.sh"]
 S16 = {"quick": 16, "thorough": 16}
 S8 = {"quick": 8, "thorough": 16}
 S4 = {"quick": 4, "thorough": 16}
@@ -218,7 +219,8 @@ CHECKS["C19"] = dict(
     exhaustive={"quick": True, "thorough": True},
     assumptions=["Watcher.watch is replaced by a scripted function (as the repository's own tests do); the rtnetlink socket path is not exercised", "a Subscribe linearised after end-of-watch yields a channel that is never closed (the statement does not cover it; the model allows it)"],
     parts=[dict(name="seq", pkg="internal/netstate", test="TestVerifC19", shards=S8, env={"VERIF_PART": "seq"}),
-           dict(name="lin", pkg="internal/netstate", test="TestVerifC19", race=True, shards=S8, gomaxprocs=8, env={"VERIF_PART": "lin"})],
+           dict(name="lin", pkg="internal/netstate", test="TestVerifC19", race=True, shards=S8, gomaxprocs=8, env={"VERIF_PART": "lin"}),
+           dict(name="oswatch", pkg="internal/netstate", test="TestVerifC19Netns", race=True, shards={"quick": 2, "thorough": 4}, wrap=NETNS, min_evals=0, timeout_s={"quick": 240, "thorough": 900})],
 )
 
 CHECKS["C20"] = dict(
@@ -248,7 +250,6 @@ CHECKS["C17"] = dict(
            dict(name="race", pkg="internal/corerad", test="TestVerifC17", race=True, shards=S8, gomaxprocs=4, env={"VERIF_PART": "race"}),
            dict(name="lock", pkg="internal/corerad", test="TestVerifC17Lock", race=True, shards=S8, gomaxprocs=4, timeout_s={"quick": 600, "thorough": 3600})],
 )
-NETNS = ["$VERIF/tools/netns.sh"]
 CHECKS["C11"]["parts"].append(dict(name="netns", pkg="internal/system", test="TestVerifC11Netns", shards={"quick": 4, "thorough": 8}, wrap=NETNS, gogc_off=True,
                                    env={"VERIF_IN_NETNS_EXPECTED": "1"}, timeout_s={"quick": 300, "thorough": 1800}))
 
